@@ -2,6 +2,9 @@
 #define MON_NAME "c16_average"
 #include "mon.h"
 #include <manif/algorithms/average.h>
+#include <list>
+#include <cstring>
+#include <deque>
 #include <vector>
 #include <algorithm>
 
@@ -11,7 +14,7 @@ typedef std::vector<MonG> Cloud;
 
 template <class T> struct Is1DoF { static const bool v = T::DoF == 1; };
 static const char* RN[] = {"biinvariant", "frechet_left", "frechet_right", "average"};
-static MonG runAvg(int which, const Cloud& c) {
+template <class C> static MonG runAvg(int which, const C& c) {
   switch (which) {
     case 0: return manif::average_biinvariant(c);
     case 1: return manif::average_frechet_left(c);
@@ -19,6 +22,16 @@ static MonG runAvg(int which, const Cloud& c) {
     default: return manif::average(c);
   }
 }
+// the same routines with their optional arguments spelled out
+static MonG runAvgArgs(int which, const Cloud& c, MonS eps, int iters) {
+  switch (which) {
+    case 0: return manif::average_biinvariant(c, eps, iters);
+    case 1: return manif::average_frechet_left(c, eps, iters);
+    case 2: return manif::average_frechet_right(c, eps, iters);
+    default: return manif::average(c, eps, iters);
+  }
+}
+static bool sameBitsG(const MonG& a, const MonG& b) { return std::memcmp(a.data(), b.data(), sizeof(MonS) * MonG::RepSize) == 0; }
 
 void runOnce(const Args&) {
   for (int w = 0; w < 4; ++w) {  // an empty set raises
@@ -80,6 +93,15 @@ void runCase(long long i, Prng& r, const Args& a) {
     double nd = (double)normDev(g, m.coeffs());
     if (!finiteVec(m.coeffs()) || !(nd < Sc<MonS>::eps())) { LOG.cell("avg/" + key + "/" + lab, INFINITY); viol("invalid-result/" + key + "/" + dropLin(lc), nd); continue; }
     GM Mm = gmOf(m);
+    if (i % 3 == 0) {
+      // the routines are templates over the container: list, deque and a vector with Eigen's aligned allocator hold the same points
+      // in the same order and must give the same bits; so must the defaults spelled out
+      std::list<MonG> li(pts.begin(), pts.end()); std::deque<MonG> dq(pts.begin(), pts.end());
+      std::vector<MonG, Eigen::aligned_allocator<MonG>> av(pts.begin(), pts.end());
+      bool ok = sameBitsG(runAvg(w, li), m) && sameBitsG(runAvg(w, dq), m) && sameBitsG(runAvg(w, av), m) && sameBitsG(runAvgArgs(w, pts, manif::Constants<MonS>::eps, 20), m);
+      LOG.cell("container-and-default-arguments/" + key, ok ? 0 : 1);
+      if (!ok) viol("depends-on-container-or-spelled-out-defaults/" + key, 1);
+    }
     if (identical || n == 1) {
       double e = (double)(tangentDist(Mm, MP[0]) / cs);
       LOG.cell("identical-points/" + key + "/" + lab, e);
@@ -91,6 +113,17 @@ void runCase(long long i, Prng& r, const Args& a) {
       double res = (double)(residual(Mm, MP).norm() / cs);
       LOG.cell("stationary/" + key + "/" + lab, res); LOG.maxi("residual/" + key, res);
       if (!(res <= stopTol)) viol("not-stationary/" + key + "/" + dropLin(lc), res);
+      // a larger iteration budget changes nothing beyond the stopping tolerance (the default budget was enough), and a looser
+      // user-supplied tolerance is honoured as a tolerance: residual within 4*sqrt(eps_user)
+      if (i % 3 == 1) {
+        double eb = (double)(tangentDist(gmOf(runAvgArgs(w, pts, manif::Constants<MonS>::eps, 200)), Mm) / cs);
+        LOG.cell("larger-budget/" + key + "/" + lab, eb);
+        if (!(eb <= 2 * stopTol)) viol("default-budget-not-converged/" + key + "/" + dropLin(lc), eb);
+        const MonS eu = (MonS)1e-4; MonG ml = runAvgArgs(w, pts, eu, 20);
+        double rl = (double)(residual(gmOf(ml), MP).norm() / cs);
+        LOG.cell("user-tolerance/" + key + "/" + lab, rl);
+        if (!(rl <= 4 * std::sqrt((double)eu)) || !(normDev(g, ml.coeffs()) < Sc<MonS>::eps())) viol("user-tolerance-not-honoured/" + key + "/" + dropLin(lc), rl);
+      }
       // order independence
       Cloud sh = pts; for (int k = (int)sh.size() - 1; k > 0; --k) std::swap(sh[k], sh[r.below(k + 1)]);
       double ep = (double)(tangentDist(gmOf(runAvg(w, sh)), Mm) / cs);
